@@ -709,6 +709,23 @@ func (x *Exec) loopExitAssertions(b *ssa.BasicBlock, bst *State) {
 			if li.body[s] || li.head == s {
 				continue
 			}
+			if n := len(s.Instrs); n > 0 {
+				// leaving the loop by a `return` (or panic) written inside it is a return site, not
+				// a loop exit; the block the loop's own guard exits to is always a loop exit, even
+				// when the function returns right after the loop
+				afterLoop := false
+				for _, hs := range li.head.Succs {
+					if hs == s {
+						afterLoop = true
+					}
+				}
+				switch s.Instrs[n-1].(type) {
+				case *ssa.Return, *ssa.Panic:
+					if !afterLoop {
+						continue
+					}
+				}
+			}
 			cond, ok := x.edgeCond[[2]int{b.Index, s.Index}]
 			if !ok {
 				continue
